@@ -113,6 +113,9 @@ struct lys_glob_unres {
                                     module is always the explicitly implemented module, the other ones are dependencies */
     struct ly_set creating;     /**< set of YANG schemas being atomically created (parsed); it is a subset of implemented
                                     and all these modules are freed if any error occurs */
+    struct ly_set feat_mods;    /**< set of modules whose enabled features were (possibly) changed */
+    struct ly_set feat_bits;    /**< their previous feature states (array of ::ly_bool for every module in feat_mods),
+                                    restored if any error occurs */
     struct lys_depset_unres ds_unres;   /**< unres specific for the current dependency set */
 };
 
